@@ -545,13 +545,21 @@ impl Scenario for ConnScenario {
                     log.iter().filter_map(|e| if let Seen::OpenSubstreamResult { result, .. } = e { Some(result.is_ok()) } else { None }).collect()
                 };
                 let (res_x, res_y, res_rx) = (results(&st.x.log.lock()), results(&st.y.log.lock()), results(&st.rx.log.lock()));
+                let inbound_at_l = st.x.log.lock().iter().filter(|e| matches!(e, Seen::SubstreamOpened { outbound: None, .. })).count();
                 let (mut ix, mut iy, mut irx) = (0usize, 0usize, 0usize);
                 let mut last_open = est;
                 for (at, what) in &st.activity {
                     let ok = match what.as_str() {
                         "open-x" => { ix += 1; res_x.get(ix - 1).copied().unwrap_or(false) }
                         "open-y" => { iy += 1; res_y.get(iy - 1).copied().unwrap_or(false) }
-                        "remote-open-x" => { irx += 1; res_rx.get(irx - 1).copied().unwrap_or(false) }
+                        // the remote's request also has to have reached L (its side may accept the request while the
+                        // connection is already closing here): the k-th accepted one shows as L's k-th inbound substream
+                        "remote-open-x" => {
+                            irx += 1;
+                            let accepted = res_rx.get(irx - 1).copied().unwrap_or(false);
+                            let accepted_so_far = res_rx.iter().take(irx).filter(|ok| **ok).count();
+                            accepted && inbound_at_l >= accepted_so_far
+                        }
                         _ => false,
                     };
                     if ok && *at >= est {
